@@ -285,6 +285,8 @@ def cases(tier, what="forward"):
             add("pow", [s], {"n": n}, pats=["generic"])
         for n in (2.0, 3.0, 4.0, -2.0, -1.0, 1.0, 0.0):       # float-TYPED integer-valued exponents are fine on negative bases too
             add("pow", [s], {"n": n}, pats=["generic"])
+        for n in (0, 0.0, 1, 2, 3, 2.0):                       # non-negative integer powers are differentiable at x = 0 as well
+            add("pow", [s], {"n": n}, pats=["with_zeros"])
         for n in RPOW_N:
             add("rpow", [s], {"n": n})
     # --- matmul / addmm
